@@ -1226,7 +1226,7 @@ def main():
 
     col = Collector()
     try:
-        mism, stats, bres = evaluate(env, cases, col, cyc_sample=7 if ck.quick else 23)
+        mism, stats, bres = evaluate(env, cases, col, cyc_sample=16 if ck.quick else 23)
     except RuntimeError as e:
         ck.broken_obligation(str(e), "")
         ck.finish()
